@@ -93,6 +93,7 @@ type FnCtx struct {
 	cells      map[string]SV // captured variables (closure units): name -> pointer to the variable
 	ghostVars  map[string]GhostVar
 	alias      map[string]string // contract name -> actual variable name (renamed variables)
+	nPlainSends int // unit root only: plain sends met so far
 	flatOrd    map[string]int   // root only: ordinal of every anchorable call, helpers that get inlined included
 	flatLoop   map[string]int   // root only: ordinal of every loop, loops of inlined helpers included
 	inlinePath []ssa.Instruction // for an inlined helper: the chain of call instructions that led here
